@@ -58,6 +58,7 @@ func (db *DB) handleMessages(ctx context.Context, sub event.Subscription) {
 					}
 
 					verifGate("merge.begin", db, evt.DocID)
+					defer verifGate("merge.end", db, evt.DocID)
 
 					// retry the merge process if a conflict occurs
 					//
